@@ -19,9 +19,9 @@
 (***************************************************************************)
 EXTENDS Naturals, Sequences, FiniteSets, TLC
 
-CONSTANTS MaxTests, MaxOps
+CONSTANTS MaxTests, MaxOps, Family     \* Family: "all" | "interplay" (operations whose restore order / option context matters)
 
-VarNames == {"v1", "v2"}
+VarNames == {"v1", "BASH_MYVAR"}    \* an ordinary name, and a user variable whose name starts like bash-owned ones
 Values   == {"plain", "spaces", "squote", "dquote", "newline", "utf8", "empty", "glob_chars", "dollar"}
 Opts     == {"noglob", "nounset", "pipefail", "noclobber"}
 Shopts   == {"extglob", "nullglob", "dotglob"}
@@ -39,13 +39,23 @@ OpsOn(st) ==
  \cup {Op("unsetvar", n, "-", "-") : n \in {x \in VarNames : st.vars[x].kind # "unset"}}
  \cup {Op("export", n, "-", "-") : n \in {x \in VarNames : st.vars[x].kind = "scalar" /\ ~st.vars[x].ex}}
  \cup {Op("unexport", n, "-", "-") : n \in {x \in VarNames : st.vars[x].ex}}
- \cup {Op("deffunc", "f1", b, "-") : b \in {"1", "2"}} \cup {Op("unsetfunc", "f1", "-", "-") : x \in {y \in {1} : st.funcs["f1"] # "0"}}
+ \cup {Op("deffunc", "f1", "1", "-")}
+ \* body 2 uses an extended glob pattern: bash can only parse it while `extglob` is on
+ \cup {Op("deffunc", "f1", "2", "-") : x \in {y \in {1} : "extglob" \in st.shopts}} \cup {Op("unsetfunc", "f1", "-", "-") : x \in {y \in {1} : st.funcs["f1"] # "0"}}
  \cup {Op("defalias", "a1", b, "-") : b \in {"1", "2"}} \cup {Op("unalias", "a1", "-", "-") : x \in {y \in {1} : st.aliases["a1"] # "0"}}
  \cup {Op("setopt", o, on, "-") : o \in Opts, on \in {"on", "off"}}
  \cup {Op("shopt", o, on, "-") : o \in Shopts, on \in {"on", "off"}}
  \cup {Op("cd", d, "-", "-") : d \in Dirs}
  \cup {Op("pushd", d, "-", "-") : d \in {x \in Dirs : Len(st.stack) < 2}}
  \cup {Op("popd", "-", "-", "-") : x \in {y \in {1} : st.stack # <<>>}}
+
+\* options that change how the rest of the state is parsed or expanded when it is restored, and state that is sensitive to it
+Interplay(o) == \/ o.op = "shopt" /\ o.a = "extglob"
+                \/ o.op = "setopt" /\ o.a \in {"noglob", "nounset"}
+                \/ o.op = "deffunc" \/ o.op = "defalias"
+                \/ o.op = "setvar" /\ o.a = "v1" /\ o.b \in {"scalar", "indexed"} /\ o.c \in {"glob_chars", "dollar"}
+                \/ o.op = "pushd" /\ o.a = "sub1"
+OpsFor(st) == IF Family = "interplay" THEN {o \in OpsOn(st) : Interplay(o)} ELSE OpsOn(st)
 
 Apply(st, o) ==
     CASE o.op = "setvar"      -> [st EXCEPT !.vars[o.a] = [kind |-> o.b, ex |-> FALSE, val |-> o.c]]
@@ -88,7 +98,7 @@ Start == /\ pc = "idle" /\ Len(hist) < MaxTests
          /\ UNCHANGED <<hist, sess, file, obs, ref>>
 \* the shell expression runs: one state-changing operation at a time
 RunOp == /\ pc = "run" /\ Len(cur.ops) < MaxOps
-         /\ \E o \in OpsOn(proc) : proc' = Apply(proc, o) /\ cur' = [cur EXCEPT !.ops = Append(@, o)]
+         /\ \E o \in OpsFor(proc) : proc' = Apply(proc, o) /\ cur' = [cur EXCEPT !.ops = Append(@, o)]
          /\ UNCHANGED <<hist, sess, file, obs, ref, pc>>
 EndOps == /\ pc = "run" /\ pc' = "probe"
           /\ UNCHANGED <<hist, sess, file, proc, obs, ref, cur>>
